@@ -65,6 +65,9 @@ func main() {
 		cmdFreeze(os.Args[2:])
 	case "selftest":
 		os.Exit(cmdSelftest(os.Args[2:]))
+	case "images":
+		// debugging aid: evaluate the wire images of the message codecs (codec_sem.go); images [--full] [--patch f] [Message...]
+		os.Exit(cmdImages(os.Args[2:]))
 	default:
 		usage()
 	}
@@ -214,4 +217,55 @@ func cmdDumpCodecs() {
 		}
 	}
 	fmt.Println("codecs", len(cs.Codecs), "decoder slots", nslots)
+}
+
+
+func cmdImages(args []string) int {
+	full := false
+	var overlay map[string][]byte
+	only := map[string]bool{}
+	for i := 0; i < len(args); i++ {
+		switch args[i] {
+		case "--full":
+			full = true
+		case "--patch":
+			i++
+			var err error
+			overlay, err = patchOverlay(args[i])
+			if err != nil {
+				fmt.Fprintln(os.Stderr, err)
+				return 3
+			}
+		default:
+			only[args[i]] = true
+		}
+	}
+	if len(only) == 0 {
+		only = nil
+	}
+	w, err := LoadWorld("", overlay)
+	if err != nil {
+		fmt.Fprintln(os.Stderr, err)
+		return 2
+	}
+	start := time.Now()
+	cs := ExtractCodecs(w)
+	spec, err := loadSpecMessages()
+	if err != nil {
+		fmt.Fprintln(os.Stderr, err)
+		return 2
+	}
+	r := NewReport("images", w)
+	good := checkCodecImages(w, r, cs, spec, only, full)
+	nGood := 0
+	for _, g := range good {
+		if g {
+			nGood++
+		}
+	}
+	for _, f := range r.Findings {
+		fmt.Printf("  %s: %s\n", f.Key, f.Msg)
+	}
+	fmt.Printf("%d messages, %d images, %d with every image decided and reproduced, %d findings, %.1fs\n", len(good), r.rule("codec.image").Sites, nGood, len(r.Findings), time.Since(start).Seconds())
+	return 0
 }
